@@ -194,7 +194,8 @@ static int mode_direct(int cases, int max_nr, int max_nt)
                 for (auto& v : b) v = kind == 0 ? rng.uniform(-1, 1) : std::ldexp(rng.uniform(-1, 1), rng.range(-40, 40)); // huge dynamic range
                 Vector<double> bv = from_rowmajor(g, b);
                 std::string mat;
-                if (strat == 0) { DirectSolverGiveCustomLU d(g, ch.levels[0]->levelCache(), *p.geo, *p.coef, p.dirbc, threads); d.solveInPlace(bv); if (threads == 1 && N <= 200) mat = csr_dump(g, GMGPolarVerif::matrix(d)); }
+                // give: the scatter assembly is dumped for the sequential branch (threads == 1) AND for the 3-coloured parallel branch (threads == 4)
+                if (strat == 0) { DirectSolverGiveCustomLU d(g, ch.levels[0]->levelCache(), *p.geo, *p.coef, p.dirbc, threads); d.solveInPlace(bv); if (N <= 200) mat = csr_dump(g, GMGPolarVerif::matrix(d)); }
                 else { DirectSolverTakeCustomLU d(g, ch.levels[0]->levelCache(), *p.geo, *p.coef, p.dirbc, threads); d.solveInPlace(bv); if (threads == 1 && N <= 200) mat = csr_dump(g, GMGPolarVerif::matrix(d)); }
                 printf("DS strat=%s threads=%d b=%s x=%s mat=%s\n", strat == 0 ? "give" : "take", threads, hexvec(b).c_str(), hexvec(to_rowmajor(g, bv)).c_str(), mat.empty() ? "-" : mat.c_str());
             }
